@@ -98,6 +98,12 @@ pub fn run(prop: &'static str, tier: &str, seed: u64) -> i32 {
         let slow: Vec<Vec<Value>> = run_cases(((n_slow + 3) / 4) as usize, 4, move |b| run_worker("c11slow", seed ^ 0x510, b as u64 * 4, 4));
         results.extend(slow);
     }
+    if prop == "C03" {
+        // the same property through the HTTP front end: a follower whose replay is held up while others append
+        let n_http = if t { 36 } else { 6 };
+        let http: Vec<Value> = run_cases(n_http, 6, move |i| crate::e2h::http_follow_round(crate::rng::mix(seed, 88_000 + i as u64)));
+        results.push(http);
+    }
     if prop == "C02" {
         // the same property through the HTTP front end (parallel connections, NDJSON and SSE pollers)
         let n_http = if t { 40 } else { 6 };
@@ -180,6 +186,10 @@ pub fn run(prop: &'static str, tier: &str, seed: u64) -> i32 {
             if r["http_round"] == true {
                 rep.count("http_rounds", 1);
             }
+            if r["http_follow_round"] == true {
+                rep.count("http_follow_rounds", 1);
+                rep.count("http_follow.appended_during_replay_and_delivered_after_threshold", r["delivered_from_window"].as_u64().unwrap_or(0));
+            }
             if r["lagged"] == true {
                 rep.count("slow_rounds_that_lagged", 1);
             }
@@ -218,6 +228,7 @@ pub fn run(prop: &'static str, tier: &str, seed: u64) -> i32 {
     if prop == "C03" {
         rep.require("a stalled follower lagged past the buffers", rep.counters.get("slow_rounds_that_lagged").copied().unwrap_or(0) > 0);
         rep.require("appends overlapped the read() call", rep.counters.get("window_hits").copied().unwrap_or(0) > 0);
+        rep.require("http follow rounds", rep.counters.get("http_follow_rounds").copied().unwrap_or(0) > 0);
     }
     if prop == "C11" {
         rep.require("a slow consumer actually lagged", rep.counters.get("slow_rounds_that_lagged").copied().unwrap_or(0) > 0);
